@@ -296,7 +296,7 @@ def build_unit_text(unit, xdir, specs, report):
     extra_src = ''
     if unit.get('extra_source'):
         # a lemma / glue function written in /verif (NOT repository code): listed as such in the evidence
-        extra_src = open(os.path.join(VERIF, unit['extra_source'])).read()
+        extra_src = '\n'.join(open(os.path.join(VERIF, f)).read() for f in ([unit['extra_source']] if isinstance(unit['extra_source'], str) else unit['extra_source']))
         report = dict(report); report['lowered'] = dict(report['lowered'])
         report['lowered'][target] = {'callees': list(unit.get('extra_reach', [])), 'l0': [], 'proto': unit['proto']}
     for fn in fns:
@@ -312,7 +312,7 @@ def build_unit_text(unit, xdir, specs, report):
         if fn in reach or fn not in report['lowered']:
             continue
         reach.add(fn)
-        if fn in unit.get('replace', []) and fn != target:
+        if (fn in unit.get('replace', []) or fn in unit.get('stubbed', [])) and fn != target:
             continue
         todo.extend(report['lowered'][fn]['callees'])
     for prim, users in report.get('unknown_l0', {}).items():
@@ -327,7 +327,9 @@ def build_unit_text(unit, xdir, specs, report):
             continue
         m = re.match(r'^/\*@FN (\w+)@\*/$', line)
         if m:
-            skipping = m.group(1) not in reach
+            # 'stubbed' callees (bounded stand-ins only): the prototype stays, the body is the callee's specification written in the
+            # glue file -- the caller is checked against the callee's contract, which has its own (unbounded) units
+            skipping = m.group(1) not in reach or m.group(1) in unit.get('stubbed', [])
             continue
         if line == '/*@ENDFN@*/':
             skipping = False
@@ -335,6 +337,16 @@ def build_unit_text(unit, xdir, specs, report):
         if not skipping:
             kept.append(line)
     lowered = '\n'.join(kept) + '\n' + extra_src
+    if unit.get('bounded'):
+        # bounded stand-in: concrete L0, no contract instrumentation; the glue function in extra_source builds concrete pre-states,
+        # calls the REAL lowered function and asserts the postconditions (loops unwound up to the stated bound)
+        text = re.sub(r'/\*@(CONTRACT|LOOP) [^@]*@\*/', '', lowered)
+        defs = dict(unit.get('defs', {})); defs['L0_CONCRETE'] = '1'
+        head = ['#include <stdint.h>', '#include <stddef.h>'] + ['#define %s %s' % (k, v) for k, v in defs.items()] + ['#include "l0.h"']
+        body = '\n'.join(head) + '\n' + text + '\n#include "l0c_globals.c"\nvoid harness(void) { %s(); }\n' % target
+        cflags = ['-DESZ=%d' % facts['sizeof'], '-DCAT_TC=%d' % facts['trivially_copyable'], '-DCAT_TR=%d' % facts['trivially_relocatable'],
+                  '-DCAT_NOTHROW_MOVE=%d' % (1 if facts['nothrow_move_construct'] and facts['nothrow_move_assign'] else 0)]
+        return body, {'ordinals': {}, 'fnprops': {}}, cflags
     text, cmap = splice(lowered, specs, fns, subst)
     proto = report['lowered'][target]['proto']
     ret, name, ps = proto_params(proto)
@@ -365,7 +377,7 @@ def run_unit(unit, xdir, specs, report, variant='main', extra_defs=(), log=print
     body, cmap, cflags = build_unit_text(unit, xdir, specs, report)
     ghost_fp = sha(*[open(f, 'rb').read() for f in sorted(glob.glob(os.path.join(GHOST, '*')))])
     flags = list(cflags) + list(extra_defs)
-    key = sha(body, ghost_fp, ' '.join(flags), ' '.join(CBMC_FLAGS), unit['target'], ' '.join(unit.get('replace', [])), variant)[:24]
+    key = sha(body, ghost_fp, ' '.join(flags), ' '.join(CBMC_FLAGS), unit['target'], ' '.join(unit.get('replace', [])), variant, str(unit.get('bounded', '')))[:24]
     udir = os.path.join(CACHE, 'u_' + key)
     resf = os.path.join(udir, 'result.json')
     if os.path.exists(resf):
@@ -381,6 +393,12 @@ def run_unit(unit, xdir, specs, report, variant='main', extra_defs=(), log=print
     rc, out, err, dt = run(['goto-cc'] + flags + ['-I' + GHOST, '--function', 'harness', 'unit.c', '-o', 'unit.gb'], cwd=udir, timeout=120)
     if rc != 0:
         return fail('goto-cc: ' + (out + err)[-1500:])
+    if unit.get('bounded'):
+        K = int(unit['bounded'])
+        cmdc = ['cbmc', 'unit.gb', '--sat-solver', 'cadical', '--bounds-check', '--pointer-check', '--conversion-check', '--signed-overflow-check', '--div-by-zero-check',
+                '--unwind', str(K), '--unwinding-assertions', '--slice-formula', '--json-ui', '--object-bits', '10'] + list(unit.get('cbmc_flags', []))
+        rc, out, err, dt = run(cmdc, cwd=udir, timeout=timeout, mem_gb=14)
+        return finish_cbmc(unit, udir, res, resf, rc, out, err, timeout, {'ordinals': {}, 'fnprops': {}}, t0)
     cmd = ['goto-instrument', '--dfcc', 'harness', '--enforce-contract', unit['target']]
     for g in unit.get('replace', []):
         cmd += ['--replace-call-with-contract', g]
@@ -397,6 +415,12 @@ def run_unit(unit, xdir, specs, report, variant='main', extra_defs=(), log=print
             if 'VAC' in c[1] and key[1] == 'ensures':
                 cmdc += ['--property', '%s.postcondition.%d' % (key[0], key[2])]
     rc, out, err, dt = run(cmdc, cwd=udir, timeout=timeout, mem_gb=14)
+    return finish_cbmc(unit, udir, res, resf, rc, out, err, timeout, cmap, t0)
+
+def finish_cbmc(unit, udir, res, resf, rc, out, err, timeout, cmap, t0):
+    def fail(msg):
+        res.update(status='infra', error=msg, seconds=time.time() - t0)
+        return res
     import gzip
     with gzip.open(os.path.join(udir, 'cbmc.json.gz'), 'wt') as gz:
         gz.write(out)
@@ -418,6 +442,11 @@ def run_unit(unit, xdir, specs, report, variant='main', extra_defs=(), log=print
             msgs.append(item.get('messageText', ''))
     if results is None:
         return fail('cbmc produced no result (rc=%s): %s' % (rc, ' | '.join(msgs)[-1200:]))
+    if any(re.search(r'out of memory|VERIFICATION ERROR', m) for m in msgs) or any(r.get('status') == 'ERROR' for r in results):
+        return fail('cbmc gave up (rc=%s): %s' % (rc, ' | '.join(m for m in msgs if re.search(r'memory|ERROR|error', m))[-600:]))
+    nobody = [r_['property'] for r_ in results if '.no-body.' in r_.get('property', '') and r_.get('status') == 'FAILURE']
+    if nobody:
+        return fail('a function without body or contract is reached (its result would be arbitrary): %s' % nobody[:3])
     bad = [m for m in msgs if re.search(r'ignoring|no body for function|Parse Error', m)]
     obls = []
     for r in results:
